@@ -77,6 +77,7 @@ type Exec struct {
 	pending    []pendingObl
 	models     []*poolModel
 	hname      string
+	files      []*StringV // files declared to exist by the harness (nil: arbitrary file system)
 	shared     *sharedCaches
 }
 
